@@ -15,6 +15,7 @@ LEVEL_TEXT = ('Static lockstep, dirty=>recompute, proposal-accounting and siblin
 
 
 def run(ctx):
+    from ..estimators import rule_E_shell
     rule_L1_sampler(ctx, {'shell'})
     rule_L1d_transition(ctx)
     rule_T3(ctx)
@@ -27,11 +28,13 @@ def run(ctx):
     # ... also for a sampler resumed from any checkpoint: statistics of all shells are
     # rewritten together with the samples they summarise after every batch
     rule_P4_sampler(ctx)
+    # the formulas: exact linear-form algebra in the log domain
+    rule_E_shell(ctx)
     ctx.floor('L1', 10, 'member lockstep verdicts')
     ctx.floor('L1d', 2, 'transition-time records')
     ctx.floor('T3', 8, 'dirty sites')
     ctx.floor('T8', 8, 'accounting obligations')
-    ctx.not_decided += ['the estimator formulas themselves (logsumexp, Kish n_eff, eta): '
-                        'numerical identities; freezing their text would alarm on harmless '
-                        'rewrites', 'count <= proposals as a runtime inequality (decided: the '
+    ctx.floor('E', 12, 'estimator-algebra obligations')
+    ctx.not_decided += ['floating-point evaluation of the formulas (logsumexp stability, -inf '
+                        'and nan handling of the degenerate branches) and the formula of eta', 'count <= proposals as a runtime inequality (decided: the '
                         'request is counted before filtering)']
